@@ -64,7 +64,7 @@ func runHistory(ft fataler, f pools.Factory, ops []pools.Op, opt runOpt) (*model
 	alt, _ := p.(pools.AltEntry)
 	snap, _ := p.(pools.Snapshotter)
 	touched := map[string]uint64{}
-	lapsedVal := map[string]bool{} // values whose holder's lease lapsed (not released) at some point: that holder's store record may linger
+	lapsedVal := map[string]string{} // value -> the holder whose lease lapsed (not released) on it last: that holder's store record may linger
 	epoch := func() uint64 {
 		if ep != nil {
 			return ep.Epoch()
@@ -164,7 +164,7 @@ func runHistory(ft fataler, f pools.Factory, ops []pools.Op, opt runOpt) (*model
 			for _, x := range subs { // fixed order: no map iteration in the oracle's log
 				if at, ok := touched[x]; ok && e-at > f.Grace {
 					if v, holds := m.has[x]; holds {
-						lapsedVal[v] = true
+						lapsedVal[v] = x
 					}
 					m.onFree(x) // lease lapsed without renewal
 					delete(touched, x)
@@ -186,9 +186,10 @@ func runHistory(ft fataler, f pools.Factory, ops []pools.Op, opt runOpt) (*model
 					if want, holds := m.has[x]; holds {
 						if got := lookup(x); got != want {
 							kind := "reload-changed"
-							if lapsedVal[want] {
-								// the value was re-assigned after an earlier holder's lease lapsed: the lapsed
-								// holder's record can still be in the store and win the conflict on reload
+							if h, ok := lapsedVal[want]; ok && h != x && lookup(h) == want {
+								// the value was re-assigned after an earlier holder's lease lapsed, and it is that
+								// lapsed holder's lingering store record that won the conflict on reload (the listed
+								// shape); any other way of losing the value at reload keeps the plain signature
 								kind = "reload-changed/value-of-lapsed-holder"
 							}
 							m.fail(ft, kind, "after reload %s has %q, it was handed %q and never gave it up", x, got, want)
